@@ -69,7 +69,7 @@ func TestC13(t *testing.T) {
 
 	// ---------- (a) ----------
 	broken := false
-	var hookOps, decisions, preempts int64
+	var hookOps, decisions, preempts, noLockCalls int64
 	h.Run(c, "atomicity", c.N(5000, 30000),
 		func(t *rapid.T) SchedCase {
 			p := genProg(t, withString)
@@ -128,9 +128,12 @@ func TestC13(t *testing.T) {
 				return h.Failf("C13|deadlock", "no thread can run: %s\n%s", out.deadlock, trace())
 			}
 			if out.noLock != "" {
-				c.Incomplete("sub-check (a): an env call (%s) made no lock operation under the hook — either the rewrite is ineffective or the operation takes no lock; (a) is blind to it", out.noLock)
-				o.Excluded = "env_call_without_lock_operation"
-				return nil
+				// an operation that took no lock under the hook: either a lock-free path (then it is one
+				// atomic step for this scheduler and its results must still be explainable, checked
+				// below; races inside it are left to sub-check (b)) or, if NO call ever takes a lock,
+				// an ineffective rewrite (decided after the run)
+				o.Class("a_env_call_without_lock_operation_" + out.noLock)
+				noLockCalls++
 			}
 			order, ok := explain(tc.Prog, out.results, out.final)
 			if !ok {
@@ -153,6 +156,10 @@ func TestC13(t *testing.T) {
 			return nil
 		})
 	c.Extra("c13_a_lock_operations_observed", hookOps)
+	c.Extra("c13_a_env_calls_without_lock_operation", noLockCalls)
+	if hookOps == 0 && noLockCalls > 0 {
+		c.Incomplete("sub-check (a): no env call made any lock operation under the hook: the rewrite is ineffective")
+	}
 	c.Extra("c13_a_scheduling_decisions", decisions)
 	c.Extra("c13_a_preemptions", preempts)
 
